@@ -44,6 +44,7 @@ pub struct Step {
     pub dt_ns: i64,
     pub set_g: Vec<Option<bool>>, // external writes to g<k> before the cycle
     pub stim: Vec<bool>,          // per program: the value it writes to its `sets` global
+    pub restart: u8,              // 1 = warm, 2 = cold restart before this step: the timeline starts again at 0
 }
 
 fn text(c: &Config) -> String {
@@ -213,6 +214,7 @@ pub struct Stats {
     multi_due_cycles: u64,
     overruns: u64,
     events_checked: u64,
+    restarts: u64,
 }
 
 pub fn run_case(c: &Config, steps: &[Step]) -> Result<Stats, (String, String, usize)> {
@@ -246,9 +248,25 @@ pub fn run_case(c: &Config, steps: &[Step]) -> Result<Stats, (String, String, us
     let mut m = Model::new(c);
     let mut runs: Vec<i64> = vec![0; c.programs.len()];
     let mut fbruns: Vec<i64> = vec![0; c.tasks.len()];
-    let mut st = Stats { cycles: 0, multi_due_cycles: 0, overruns: 0, events_checked: 0 };
+    let mut st = Stats { cycles: 0, multi_due_cycles: 0, overruns: 0, events_checked: 0, restarts: 0 };
+    let mut after_restart = false;
     for (si, s) in steps.iter().enumerate() {
-        let e = |cl: &str, d: String| (cl.to_string(), format!("cycle {si}: {d}"), si);
+        if s.restart != 0 {
+            // a restart begins a new timeline: the clock is back at 0, the task memory is as after start-up
+            let mode = if s.restart == 1 { trust_runtime::RestartMode::Warm } else { trust_runtime::RestartMode::Cold };
+            h.restart(mode).map_err(|x| ("harness".to_string(), format!("cycle {si}: restart: {x:?}"), si))?;
+            let _ = dbg.drain_runtime_events();
+            m = Model::new(c);
+            for (ti, t) in c.tasks.iter().enumerate() {
+                // whether the overrun counter survives a restart is not part of the task model: continue from what it shows
+                m.ts[ti].overruns = h.runtime().task_overrun_count(&t.name).or_else(|| h.runtime().task_overrun_count(&t.name.to_ascii_uppercase())).unwrap_or(0);
+            }
+            runs.iter_mut().for_each(|x| *x = 0);
+            fbruns.iter_mut().for_each(|x| *x = 0);
+            after_restart = true;
+            st.restarts += 1;
+        }
+        let e = |cl: &str, d: String| (cl.to_string(), format!("cycle {si}{}: {d}", if after_restart { " (after a restart)" } else { "" }), si);
         h.advance_time(Duration::from_nanos(s.dt_ns));
         for (k, v) in s.set_g.iter().enumerate() {
             if let Some(v) = v {
@@ -415,7 +433,13 @@ fn gen_steps(rng: &mut Rng, c: &Config) -> Vec<Step> {
             dt_ns: dt,
             set_g: (0..c.nglobals).map(|_| if rng.chance(1, 3) { Some(rng.bool()) } else { None }).collect(),
             stim: c.programs.iter().map(|_| rng.bool()).collect(),
+            restart: 0,
         });
+    }
+    // a third of the timelines contain a restart (FB tasks are registered through the API with references a restart invalidates)
+    if !c.tasks.iter().any(|t| t.fb) && rng.chance(1, 3) {
+        let at = 3 + rng.usize(out.len() - 3);
+        out[at].restart = 1 + rng.below(2) as u8;
     }
     out
 }
@@ -425,7 +449,7 @@ fn case_json(c: &Config, steps: &[Step]) -> J {
         "tasks": c.tasks.iter().map(|t| json!([t.name, t.interval_ms, t.single, t.priority, t.programs, t.fb])).collect::<Vec<_>>(),
         "programs": c.programs.iter().map(|p| json!([p.inst, p.sets])).collect::<Vec<_>>(),
         "g_init": c.g_init,
-        "steps": steps.iter().map(|s| json!([s.dt_ns, s.set_g, s.stim])).collect::<Vec<_>>(),
+        "steps": steps.iter().map(|s| json!([s.dt_ns, s.set_g, s.stim, s.restart])).collect::<Vec<_>>(),
     })
 }
 
@@ -444,6 +468,7 @@ fn parse_case(v: &J) -> (Config, Vec<Step>) {
         dt_ns: s[0].as_i64().unwrap(),
         set_g: s[1].as_array().unwrap().iter().map(|x| x.as_bool()).collect(),
         stim: s[2].as_array().unwrap().iter().map(|x| x.as_bool().unwrap()).collect(),
+        restart: s[3].as_u64().unwrap_or(0) as u8,
     }).collect();
     (Config { tasks, programs, nglobals: g_init.len(), g_init }, steps)
 }
@@ -494,6 +519,7 @@ fn one(sh: &mut Shard, c: Config, steps: Vec<Step>) {
             sh.count("cycles_with_two_or_more_due_tasks", st.multi_due_cycles);
             sh.count("overrun_events_compared", st.overruns);
             sh.count("runtime_events_checked", st.events_checked);
+            sh.count("timelines_with_a_restart", st.restarts);
             if st.multi_due_cycles > 0 || st.overruns > 0 {
                 let shape: Vec<String> = c.tasks.iter().map(|t| format!("{}:{:?}:{}:{}:{}", t.interval_ms, t.single, t.priority, t.programs.len(), t.fb)).collect();
                 sh.nontrivial(&(shape, steps.len() / 8, st.overruns.min(3)));
